@@ -11,6 +11,7 @@ package main
 
 import (
 	"bytes"
+	"encoding/json"
 	"flag"
 	"fmt"
 	"os"
@@ -34,6 +35,7 @@ func main() {
 	from := flag.Int("from", 0, "internal")
 	to := flag.Int("to", 0, "internal")
 	out := flag.String("out", "", "internal")
+	replay := flag.String("replay", "", "replay file written for a violation: regenerate that case and run it alone")
 	flag.Parse()
 	deadlock.Opts.Disable = true
 	if *prop != "C12" {
@@ -42,6 +44,9 @@ func main() {
 	}
 	if *child {
 		os.Exit(childMain(*tier, *be, *from, *to, *out))
+	}
+	if *replay != "" {
+		os.Exit(replayMain(*tier, *replay))
 	}
 	run := parentMain(*tier)
 	vf.CollectRaces(run)
@@ -64,12 +69,13 @@ type batch struct {
 
 func parentMain(tier string) *vf.Run {
 	run := vf.NewRun("C12", tier, "fault_enumeration")
-	run.Rule = "case = one backend (real etcd stores on embedded etcd | real MySQL stores on the fakesql engine) x 2-4 tenant root paths from a family with a related pair (string-prefix: cdc/cdc2/cdc/x; LIKE pattern characters: cdc_1~cdcX1, cdc%~cdcABC, cdc\\x~cdcx, cdc'q; nested; plain) x 2-5 task ids (prefix family t1/t10/t1/x/t100, pattern family t_1/tX1/t%1/t\\1/t'1, plain) x collection ids from {-1,-10,1,10,100,5} (+0 as 'all') x channels (ch1/ch10/ch1_/ch%...) x a seeded sequence of 5-30 operations over 25 kinds (raw Get/Put/Delete of the task and position stores, the meta-ops of meta_op.go, ReplicateStore Get/Put/Remove, DeleteTask with a failure injected at one store/driver call) x (35% of cases) a burst of 1-4 concurrent clients on disjoint task ids. The whole backend is dumped before and after every operation. Non-trivial = at least one operation ran while the backend held a foreign record related to the addressed one (other root, prefix-related id, or addressed id with pattern characters); distinct by (backend, roots, ids, collections, channels, operation kinds)."
+	run.Rule = "case = one backend (real etcd stores on embedded etcd | real MySQL stores on the fakesql engine) x 2-4 tenant root paths from a family with a related pair (string-prefix: cdc/cdc2/cdc/x; LIKE pattern characters: cdc_1~cdcX1, cdc%~cdcABC, cdc\\x~cdcx, cdc'q; nested; plain) x 2-5 task ids (prefix family t1/t10/t1/x/t100, pattern family t_1/tX1/t%1/t\\1/t'1, plain) x collection ids from {-1,-10,1,10,100,5} (+0 as 'all') x channels (ch1/ch10/ch1_/ch%...) x a seeded sequence of 5-30 operations over 24 kinds (raw Get/Put/Delete of the task and position stores with every query shape the callers use, the meta-ops of meta_op.go incl. collection id 0, ReplicateStore Put / Get exact / Get(\"\", prefix) / Remove, DeleteTask with a failure injected before or after one store call or database/sql driver call) x (35% of cases) a burst of 1-4 concurrent clients on disjoint task ids. The whole backend is dumped before and after every operation. Non-trivial = at least one operation ran while the backend held a foreign record related to the addressed one (other root, prefix-related id, or addressed id with pattern characters); distinct by (backend, roots, ids, collections, channels, operation kinds)."
 	run.Assumptions = []string{
 		"MySQL is represented by internal/fakesql: exactly the statements of server/store/mysql*.go with MySQL's documented string-literal escapes, LIKE (%, _, \\ escape), INSERT .. ON DUPLICATE KEY UPDATE by primary key, transactions as private write sets applied at COMMIT; string '=' and LIKE are case-sensitive and without PAD SPACE (MySQL's default collations match a superset); row locks and write conflicts between concurrent transactions are not modelled; rows are returned in primary-key order; any statement shape the store does not issue (e.g. after a quote in the root path) is a syntax error",
 		"the LIKE matcher and the string-literal decoder are checked at start-up against the MySQL manual's examples; a failing self-test makes the run inconclusive",
 		"etcd is a real embedded single-node etcd v3.5.5; store failures on etcd are injected by a MetaStoreFactory wrapper (before / after the real call), on MySQL additionally at the n-th database/sql driver call and at COMMIT",
 		"a record of another kind returned under the same root by ReplicateStore.Get(\"\", prefix) is counted as tolerated (the statement speaks of root paths, tasks, collections and channels)",
+		"ReplicateStore.Get with a non-empty key and withPrefix=true is not driven (no caller in the repository uses it)",
 		"task ids and root paths are free-form strings (the HTTP API does not validate task_id; the root path is configuration); ids that path.Join would rewrite (\"..\", trailing or doubled slashes) and empty ids are not generated",
 		"in 25% of the etcd cases the factory is built like the server builds it from an etcd block without its own rootPath (EtcdServerConfig.RootPath empty); violations that only concern task_msg records in that configuration carry the backend label etcd-rootpath-empty",
 	}
@@ -207,6 +213,9 @@ func setFloors(run *vf.Run) {
 			run.Floor(p+"prefix-ids", pick(5, 100))
 			run.Floor(p+"pattern-chars", pick(5, 100))
 		}
+		for _, k := range []string{"get_pos_task_coll", "del_pos_task_coll", "mo_delete_pos", "mo_update_pos", "repl_get_exact", "repl_remove"} {
+			run.Floor("cov/"+b+"/"+k+"/longer-sibling-id", pick(3, 60))
+		}
 		// a failure at every store call of DeleteTask (wrapper: Get, Txn, Delete, Delete, commit), before and after
 		// the real call, on a task that has a record and at least one checkpoint
 		for i := 1; i <= 5; i++ {
@@ -222,6 +231,7 @@ func setFloors(run *vf.Run) {
 		run.Floor("fault_outcome/"+b+"/all-kept", pick(10, 200))
 		run.Floor("fault_outcome/"+b+"/all-gone", pick(2, 40))
 		run.Floor("cases/"+b, pick(400, 8000)*9/10)
+		run.Floor("dropped_entry_update_attempts/"+b, pick(20, 400))
 	}
 	run.Floor("cases/etcd-rootpath-empty", pick(30, 600))
 	// MySQL: a failure at each of the 7 driver calls of DeleteTask (SELECT, BEGIN, PREPARE, EXEC, PREPARE, EXEC, COMMIT)
@@ -231,6 +241,60 @@ func setFloors(run *vf.Run) {
 		}
 	}
 	run.Floor("fault_idx/mysql/sql/8", pick(1, 20))
+}
+
+// ---- replay ----
+
+// replayMain regenerates the case named by a replay file (backend, case index, seed) and runs it alone; it prints
+// the event log and the violations found and exits 1 if there is one. It writes no evidence.
+func replayMain(tier, file string) int {
+	b, err := os.ReadFile(file)
+	if err != nil {
+		fmt.Fprintln(os.Stderr, "storerig:", err)
+		return 64
+	}
+	var rf struct {
+		First struct {
+			Replay struct {
+				Backend string `json:"backend"`
+				Idx     int    `json:"case_idx"`
+				Seed    int64  `json:"seed"`
+			} `json:"replay"`
+		} `json:"first"`
+	}
+	if err := json.Unmarshal(b, &rf); err != nil || rf.First.Replay.Backend == "" {
+		fmt.Fprintln(os.Stderr, "storerig: not a C12 replay file:", file, err)
+		return 64
+	}
+	rp := rf.First.Replay
+	os.Setenv("VERIF_SEED", fmt.Sprint(rp.Seed))
+	tmp := filepath.Join(scratchDir(), "replay-out.json")
+	if rc := childMain(tier, rp.Backend, rp.Idx, rp.Idx+1, tmp); rc != 0 {
+		return rc
+	}
+	var d struct {
+		Violations   []vf.Violation `json:"violations"`
+		Inconclusive []string       `json:"inconclusive"`
+	}
+	rb, _ := os.ReadFile(tmp)
+	_ = json.Unmarshal(rb, &d)
+	w := vf.Out()
+	cs := genCase(rp.Seed, rp.Backend, rp.Idx)
+	fmt.Fprintf(w, "replay property=C12 backend=%s case=%d seed=%d roots=%q tasks=%q ops=%d concurrent_clients=%d\n", rp.Backend, rp.Idx, rp.Seed, cs.Roots, cs.Tasks, len(cs.Ops), len(cs.Conc))
+	for _, v := range d.Violations {
+		fmt.Fprintf(w, "VIOLATION property=C12 %s: %s\n", v.Key, v.Desc)
+	}
+	for _, s := range d.Inconclusive {
+		fmt.Fprintf(w, "INCONCLUSIVE property=C12 %s\n", s)
+	}
+	if len(d.Violations) > 0 {
+		return 1
+	}
+	if len(d.Inconclusive) > 0 {
+		return 2
+	}
+	fmt.Fprintln(w, "replay: no violation")
+	return 0
 }
 
 // ---- child ----
